@@ -1319,6 +1319,10 @@ func runC12(res *hx.Result, rng *hx.Rng, tier string, outdir string) {
 	c12lost(res, rng, root, outdir, cfg, rounds)
 	phase("lost-replies")
 
+	// ---- hostile dynamic values in every request that carries one, hostile behaviour on every listener, then fresh clients (c12hostile.go) ----
+	c12hostile(res, rng, root, outdir, cfg, rounds)
+	phase("hostile-values-and-transports")
+
 	// ---- oracle-only scripts ----
 	for round := 0; round < rounds; round++ {
 		for _, sc := range c12scripts() {
